@@ -40,6 +40,11 @@ CHECKS = {
   text="Random call histories on MuSig2 secret nonces (ecc.musig2.sign and psbt.musig2.partial_sign), on dsa/ssa Signer and SoftwareSigner objects (incl. the KeyManager face) and on every wallet kind are recorded at the client boundary and checked after every step against small sequential models (at most one successful signature per nonce and a zeroed nonce afterwards; no signature from a dead signer; next_address = lowest index above all handed out, ledger ordered and duplicate-free). A battery of ~300 pure calls is re-answered in shuffled order, after cache clears and overflows, across backend switches and from 4-8 threads under seeded yield injection with a backend-toggling thread; every answer must equal the quiet-process one. Evidence reports switches, switch points and distinct schedules observed.",
   note="Trusted base: the sequential models in rv/props/c20.py; CPython's GIL makes statement-level interleaving the granularity reached; interleavings inside the bindings' C calls are not controllable. A caller copying a secret nonce before use is out of scope.",
   ref="DESIGN.md section 3 C20"),
+ "C19": dict(
+  technique="runtime monitoring: exception-class, stream-position and termination monitors around every introspected parser / decoder / from_dict and every boolean verifier, driven by structure-aware mutants whose field map is the sequence of reads the parser itself performs (recorded stream), with a forked-worker heartbeat supervisor deciding hangs on CPU time",
+  text="158 entry points (60 stream parsers, 17 octet-only, 43 text, 12 from_dict, 26 predicates), cross-checked on every run against introspection of btclib.*.__all__ (an entry without a generator makes the run inconclusive). Binary inputs: every length/count/type/marker field found by recording the parser's own reads is set to every boundary value and CompactSize spelling, truncated, deleted and duplicated, mutants of accepted or late-refused mutants to depth 6; text: surrogates, non-ASCII digits, NULs, digit runs above 4300, nesting to 10^4, payload mutants with the checksum recomputed; JSON: every JSON type at every path. Oracle: an escaping exception that is not the library's; a predicate raising or answering a non-bool; a stream left anywhere but on the octet after the object, or an acceptance that depends on where the stream ends; an accepted object making a consumer (serialize, ids, sizes, sighash, finalize, engine) raise a foreign exception; a call that does not return within 60 s of CPU time alone in a fresh interpreter.",
+  note="No expected value is ever computed: the oracle is the exception contract only. Protocol-fixture predicates (musig2 partial_sig_verify, anti-exfil host verify) and the wallet/fetch/hwi parsers are outside the registry; check_output_pubkey and is_negative_bits document a refusal and are not held to totality. The thorough tier adds coverage-guided inputs (atheris, installed lazily from the offline wheelhouse).",
+  ref="DESIGN.md section 3 C19"),
  "C03": dict(
   technique="runtime monitoring: reference-model monitor (BIP340 reference.py transcription over the independent EC model), exhaustive toy-curve verification, batch compositions incl. cancelling pairs, both arms",
   text="Every BIP340 signature produced (sign_, sign, Signer, sign-to-contract) is compared byte for byte at run time with the BIP's reference signer for messages of any length, keys of both parities and aux classes on both arms; every verify_ verdict with the BIP340 equation (never an exception), exhaustively over (x, r, s) on toy curves; batch_verify_ with the conjunction of single verdicts for sizes on both sides of the Bos-Coster switch, one bad member at every position and cancelling pairs that only random coefficients detect.",
